@@ -660,7 +660,10 @@ def register(R):
                                                            and cm.extra['env']['executor'] is c.a_request_executor), ['C05', 'C04', 'C10'])
         out['complete_depends_on_create_and_on_every_part_in_order'] = (B(
             set(pk) == {'upload_id', 'parts'} and pk['upload_id'] is cr.result and parts is c.new.st.env['part_futures']), ['C05', 'C01', 'C04'])
-        # number of parts / exhaustion of the source
+        # number of parts / exhaustion of the source.  (C01 speaks about transfers that succeed: if the function itself saw the
+        # transfer already finished -- failed or cancelled -- it may stop queueing parts; the code as it stands never looks)
+        from .a_common import DONE as _DONE, status_in as _status_in
+        seen_done = z3.Or([B(False)] + [_status_in(e.result, _DONE) for e in flat(tr) if e.kind == 'read' and e.name == '_status'])
         nparts = to_int_term(c.new.st.obj(c.new.st.env['part_futures']).meta['len'])
         chunk = c.new.st.env['chunksize']
         mgr_cls = c.new.obj(c.a_upload_input_manager).cls.name
@@ -668,14 +671,14 @@ def register(R):
         g = c.new.st.ghost.get(('stream', fo.label))
         if mgr_cls == 'UploadFilenameInputManager':
             out['number_of_parts_is_ceil_size_over_chunksize'] = (
-                is_ceil_div(nparts, size_val(c.new.st, c.a_transfer_future), chunk), ['C01', 'C14'])
+                z3.Or(seen_done, is_ceil_div(nparts, size_val(c.new.st, c.a_transfer_future), chunk)), ['C01', 'C14'])
         elif mgr_cls == 'UploadSeekableInputManager':
             out['number_of_parts_is_ceil_size_over_chunksize'] = (
-                is_ceil_div(nparts, size_val(c.new.st, c.a_transfer_future), chunk), ['C01', 'C14'])
+                z3.Or(seen_done, is_ceil_div(nparts, size_val(c.new.st, c.a_transfer_future), chunk)), ['C01', 'C14'])
         else:
             d = c.new.obj(c.a_upload_input_manager).fields['_initial_data']
             empty = B(True) if isinstance(d, bytes) else (to_int_term(d.hi) == to_int_term(d.lo))
-            out['source_read_to_the_end'] = (z3.And(g['pos'] == g['len'], empty), ['C01'])
+            out['source_read_to_the_end'] = (z3.Or(seen_done, z3.And(g['pos'] == g['len'], empty)), ['C01'])
         out['at_most_10000_parts'] = (nparts <= 10000, ['C14'])
         # chunk size comes from the adjuster (C14) applied to the configured chunk size and the size
         adj = calls(tr, 'ChunksizeAdjuster.adjust_chunksize')
